@@ -59,6 +59,14 @@ func bigShape(name string, n int, rng *rand.Rand) []byte {
 		return []byte(rep("1_"))
 	case "whitespace":
 		return []byte(rep(" \t\n\r "))
+	case "list-stray":
+		return []byte("[" + rep("@"))
+	case "list-colons":
+		return []byte("[" + rep(":"))
+	case "args-invalid":
+		return []byte("f(" + rep("\xff"))
+	case "list-parens":
+		return []byte("[" + rep(")"))
 	case "stray":
 		return []byte(rep("@#"))
 	case "invalid-utf8":
@@ -87,7 +95,7 @@ func bigShape(name string, n int, rng *rand.Rand) []byte {
 
 var bigShapes = []string{"parens", "parens-open", "brackets", "brackets-open", "prefix-chain", "plus-chain", "mixed-chain", "ternary-chain",
 	"ternary-open", "assign-chain", "member-chain", "call-chain", "args", "commas", "string-open", "string-escapes", "identifier", "number",
-	"separators", "whitespace", "stray", "invalid-utf8", "dots", "bangs", "newline-dots", "typeof-chain", "soup", "bytes"}
+	"separators", "whitespace", "list-stray", "list-colons", "args-invalid", "list-parens", "stray", "invalid-utf8", "dots", "bangs", "newline-dots", "typeof-chain", "soup", "bytes"}
 
 func timeParse(text []byte) int64 {
 	best := int64(-1)
